@@ -354,7 +354,17 @@ class World:
                 return True
             new_id = canon.job_id(new)
             if new_id != jid and mj is not None and new_id in self.jobs[proj]:
-                run(f, DestinationExistsError, "(destination initialised)")
+                try:
+                    run(f, DestinationExistsError, "(destination initialised)")
+                except Unexpected as e:
+                    if e.kind == "expected-failure-did-not-happen" and old == new and job.id == jid and \
+                            name in ("sp_assign", "sp_assign_typed", "update_sp"):
+                        # the requested change only re-types equal values (5.0 -> 5): the whole-assignment routes ignore
+                        # it altogether (open finding KF-C03-4), so the collision with the other job is never reached
+                        raise Unexpected("state-point-assignment-ignores-type-only-difference",
+                                         f"{op}: state point {old} -> {new} requested (the destination exists), nothing happened",
+                                         op=name, route="whole")
+                    raise
                 self._drop_group(grp)  # a failed re-key leaves the handle's in-memory state point edited
                 return True
             run(f)
